@@ -19,6 +19,12 @@ Oracle (from the property statement, independent of the model):
      without the tag key; without default it raises;
   M  un/structuring a member type on the configured converter == on the fresh converter;
   N  the payload object handed to structure() is unchanged afterwards.
+
+Histories: "after configure_tagged_union for a union U" holds whatever the converter did before and does afterwards.
+A scenario therefore may (a) configure the SAME union earlier with other tag names / generators / defaults / member
+spellings and USE it in between (structure, unstructure, list[U], get_*_hook: every dispatch cache is warm with the
+earlier hooks) — all oracles are then evaluated against the LAST configuration of U; (b) configure DIFFERENT unions
+sharing members with U on the same converter before and after — U's oracles must be unaffected.
 """
 from __future__ import annotations
 
@@ -90,15 +96,24 @@ def prune_linecache():
 
 # ---------------------------------------------------------------------------------------------- scenario
 
-class Scenario:
-    """One world, one converter configuration, one `configure_tagged_union` call."""
+def norm_tags(tags):
+    return {int(k): terms.tuple_ify(list(v)) if isinstance(v, list) else v for k, v in tags.items()}
 
-    def __init__(self, drv, world, opts, ucfg):
+
+class Scenario:
+    """One world, one converter configuration, one *checked* `configure_tagged_union` call (`ucfg`), optionally
+    preceded by earlier configurations (`before`: of the same union — re-configuration — or of other unions sharing
+    members; each one is used before the next call) and followed by configurations of OTHER unions (`after`)."""
+
+    def __init__(self, drv, world, opts, ucfg, before=None, after=None, use=None):
         prune_linecache()
         self.drv = drv
         self.world = world
         self.opts = opts
         self.ucfg = ucfg  # {"members":[ci..], "tagmode":..., "tags": {ci: absobj}|None, "tag_name": str, "default": ci|None}
+        self.before = list(before or [])
+        self.after = list(after or [])
+        self.use = [terms.tuple_ify(x) if isinstance(x, list) else x for x in (use or [])]
         self.R = Realised(world)
         self.members = list(ucfg["members"])
         self.classes = self.R.classes
@@ -106,23 +121,31 @@ class Scenario:
         self.tag_name = ucfg["tag_name"]
         self.default = ucfg["default"]
         # tag of every class (abstract); "name" mode = default_tag_generator
-        if ucfg["tagmode"] == "name":
-            self.tags = {i: ("s", self.classes[i].__name__) for i in range(len(self.classes))}
-        else:
-            self.tags = {int(k): terms.tuple_ify(list(v)) if isinstance(v, list) else v for k, v in ucfg["tags"].items()}
+        self.tags = self.tags_of(ucfg)
         self.fresh = make_converter(opts)
         self.conv = make_converter(opts)
         self.configure_error = None
-        kw = {}
-        if ucfg["tagmode"] != "name":
-            pytags = {self.classes[i]: self.R.val(t) for i, t in self.tags.items()}
-            kw["tag_generator"] = pytags.__getitem__
-        if self.default is not None:
-            kw["default"] = self.classes[self.default]
+        self.history_errors = 0
+        # Region of the recorded finding F60 (recursive-class-hetero-tuple-late-binding, a C03 matter): a class that refers
+        # to itself through a heterogeneous tuple is unstructured by a Converter with that tuple as a tuple OR as a list,
+        # depending on where hook generation entered the cycle and on what was cached when (two plain converters without
+        # any strategy already disagree).  There, and only there, UNSTRUCTURED outputs are compared modulo tuple/list.
+        self.f60 = bool(opts["gen"] and not opts["tuple"] and gen.tuple_on_cycle(world, range(len(world["classes"]))))
+        for h in self.before:
+            try:
+                self.use_union(self.apply(h))
+            except Exception:  # noqa: BLE001  an earlier configuration that cannot be applied is simply not there
+                self.history_errors += 1
         try:
-            configure_tagged_union(self.U, self.conv, tag_name=self.tag_name, **kw)
+            self.apply(ucfg)
         except Exception as e:  # noqa: BLE001
             self.configure_error = e
+        for h in self.after:
+            assert set(h["members"]) != set(self.members)
+            try:
+                self.use_union(self.apply(h))
+            except Exception:  # noqa: BLE001
+                self.history_errors += 1
         # unrelated registrations made AFTER the strategy was applied (half of the cases, derived from the
         # configuration so that a replay repeats them) must not disturb it: "member hooks untouched" cuts both ways
         if (len(self.tag_name) + len(self.members) + (self.default or 0)) % 2 == 0:
@@ -131,6 +154,70 @@ class Scenario:
                 c.register_structure_hook(_Unrelated, lambda v, _: _Unrelated())
                 c.register_unstructure_hook_func(lambda t: t is _Unrelated2, lambda v: "unrelated2")
                 c.register_structure_hook_factory(lambda t: t is _Unrelated2, lambda t: (lambda v, _: _Unrelated2()))
+
+    def un_text(self, o):
+        return terms.canon_sx(tuples_as_lists(o) if self.f60 else o)
+
+    def tags_of(self, ucfg):
+        if ucfg["tagmode"] == "name":
+            return {i: ("s", self.classes[i].__name__) for i in range(len(self.classes))}
+        return norm_tags(ucfg["tags"])
+
+    def apply(self, ucfg):
+        """one `configure_tagged_union` call on the converter under test; returns the union object"""
+        U = typing.Union[tuple(self.classes[i] for i in ucfg["members"])]
+        kw = {}
+        if ucfg["tagmode"] != "name":
+            pytags = {self.classes[i]: self.R.val(t) for i, t in self.tags_of(ucfg).items()}
+            kw["tag_generator"] = pytags.__getitem__
+        if ucfg["default"] is not None:
+            kw["default"] = self.classes[ucfg["default"]]
+        # The reference converter is asked for the members' own hooks in the very order the strategy asks the converter
+        # under test: which hook of a reference cycle is generated first is visible in cattrs without any strategy
+        # (F60: a heterogeneous tuple inside a recursive class comes out as a list or a tuple depending on where hook
+        # generation entered the cycle) and is not C13's business.
+        for i in list(ucfg["members"]) + ([ucfg["default"]] if ucfg["default"] is not None else []):
+            for getter in ((self.fresh.get_structure_hook, self.fresh.get_unstructure_hook) if i in ucfg["members"]
+                           else (self.fresh.get_structure_hook,)):
+                try:
+                    getter(self.classes[i])
+                except Exception:  # noqa: BLE001
+                    pass
+        configure_tagged_union(U, self.conv, tag_name=ucfg["tag_name"], **kw)
+        return U
+
+    def use_union(self, U):
+        """make the converter resolve (and cache) everything about `U` as configured right now"""
+        c = self.conv
+        for getter in (c.get_structure_hook, c.get_unstructure_hook):
+            try:
+                getter(U)
+            except Exception:  # noqa: BLE001
+                pass
+        xs = []
+        for x_abs in self.use:
+            try:
+                xs.append(self.R.val(x_abs))
+            except Exception:  # noqa: BLE001
+                pass
+        for x in xs:
+            try:
+                c.structure(c.unstructure(x, unstructure_as=U), U)
+            except Exception:  # noqa: BLE001
+                pass
+            try:  # the same use of the member's own hooks on the reference converter (late-bound hooks resolve at run time)
+                self.fresh.structure(self.fresh.unstructure(x), x.__class__)
+            except Exception:  # noqa: BLE001
+                pass
+        for p in ({}, None):
+            try:
+                c.structure(p, U)
+            except Exception:  # noqa: BLE001
+                pass
+        try:
+            c.structure(c.unstructure(xs, unstructure_as=list[U]), list[U])
+        except Exception:  # noqa: BLE001
+            pass
 
     # ---- model side
     def tu_sx(self):
@@ -163,10 +250,23 @@ def out_text(r):
     return "unrep"
 
 
-def same_outcome(a, b):
+def same_outcome(a, b, norm=None):
     if a[0] == "unrep" or b[0] == "unrep":
         return None
+    if norm is not None and a[0] == "ok" and b[0] == "ok":
+        return norm(a[1]) == norm(b[1])
     return out_text(a) == out_text(b)
+
+
+def tuples_as_lists(o):
+    t = o[0]
+    if t in ("t", "l"):
+        return ("l", [tuples_as_lists(x) for x in o[1]])
+    if t in ("S", "F", "q"):
+        return (t, [tuples_as_lists(x) for x in o[1]])
+    if t == "d":
+        return ("d", [(tuples_as_lists(k), tuples_as_lists(v)) for k, v in o[1]])
+    return o
 
 
 def dict_items(o):
@@ -214,12 +314,21 @@ class Runner:
 
     def case(self, S, kind, **kw):
         c = {"world": S.world, "opts": S.opts, "ucfg": S.ucfg, "kind": kind}
+        if S.before or S.after:
+            c["before"], c["after"], c["use"] = S.before, S.after, S.use
         c.update(kw)
         return c
 
     def label(self, S):
         u = S.ucfg
-        return "%s members=%s tag=%s name=%r default=%s" % (opt_name(S.opts), u["members"], u["tagmode"], u["tag_name"], u["default"])
+        hist = ""
+        if S.before or S.after:
+            def short(h):
+                return "%s%s:%s:%r:%s" % ("same" if set(h["members"]) == set(S.members) else "other", h["members"], h["tagmode"],
+                                          h["tag_name"], h["default"])
+            hist = " before=[%s] after=[%s]" % (", ".join(short(h) for h in S.before), ", ".join(short(h) for h in S.after))
+        return "%s members=%s tag=%s name=%r default=%s%s" % (opt_name(S.opts), u["members"], u["tagmode"], u["tag_name"],
+                                                              u["default"], hist)
 
     # ---- unstructure + round trip for one member instance
     def check_instance(self, S, x_abs, verbose=False):
@@ -249,7 +358,7 @@ class Runner:
         for how, r2 in (("unstructure(x)", S.run(S.conv.unstructure, x)),
                         ("unstructure(x, unstructure_as=cls)", S.run(S.conv.unstructure, x, unstructure_as=cl))):
             rf = rm if how == "unstructure(x)" else S.run(S.fresh.unstructure, x, unstructure_as=cl)
-            if same_outcome(r2, rf) is False:
+            if same_outcome(r2, rf, S.un_text) is False:
                 chk.violation(f"C13 oracle M: {how} on the configured converter differs from a fresh converter: "
                               f"{out_text(r2)} vs {out_text(rf)} [{lab}]", case)
                 return None
@@ -293,10 +402,12 @@ class Runner:
             exp = ("d", [(k, tag if gen.py_eq(k, name_key) else v) for k, v in m_items])
         else:
             exp = ("d", list(m_items) + [(name_key, tag)])
-        if terms.canon_sx(exp) != terms.canon_sx(ru[1]):
+        if S.f60:
+            chk.note("un:region-of-F60(outputs compared modulo tuple/list)")
+        if S.un_text(exp) != S.un_text(ru[1]):
             chk.violation(f"C13 oracle U: expected {terms.canon_sx(exp)} got {terms.canon_sx(ru[1])} [{lab}]", case)
             return None
-        if mm != "(ok %s)" % terms.canon_sx(ru[1]) and terms.canon_sx(terms.obj_of_px(terms.parse_sx(mm)[1])) != terms.canon_sx(ru[1]):
+        if mm != "(ok %s)" % terms.canon_sx(ru[1]) and S.un_text(terms.obj_of_px(terms.parse_sx(mm)[1])) != S.un_text(ru[1]):
             self.corr_fail.append((case, "TAGUN", out_text(ru), mm, lab))
         # ---------------- R (+ N, + correspondence of TAGST) on the genuine payload
         u = ru[2]
@@ -444,7 +555,7 @@ class Runner:
         case = self.case(S, "nested", xs=list(xs_abs))
         chk.count("nested:" + self.label(S) + repr(xs_abs))
         chk.note("nested:list[U]")
-        if ru[0] != "ok" or terms.canon_sx(ru[1]) != terms.canon_sx(("l", exp)):
+        if ru[0] != "ok" or S.un_text(ru[1]) != S.un_text(("l", exp)):
             chk.violation(f"C13 oracle U (nested in list[U]): expected {terms.canon_sx(('l', exp))} got {out_text(ru)} [{self.label(S)}]", case)
             return
         rs = S.run(S.conv.structure, ru[2], LU)
@@ -458,9 +569,11 @@ class Runner:
 
 # ---------------------------------------------------------------------------------------------- generation
 
-def gen_ucfg(rng, w, n_members, stream):
+def gen_ucfg(rng, w, n_members, stream, members=None):
     n = len(w["classes"])
-    members = rng.sample(range(n), n_members)
+    if members is None:
+        members = rng.sample(range(n), n_members)
+    members = list(members)
     non_members = [i for i in range(n) if i not in members]
     r = rng.random()
     tagmode = "name" if r < 0.34 else "table" if r < 0.67 else "table+fallback"
@@ -500,6 +613,54 @@ def gen_ucfg(rng, w, n_members, stream):
     else:
         default = rng.choice(non_members)
     return {"members": members, "tagmode": tagmode, "tags": tags, "tag_name": tag_name, "default": default}
+
+
+def gen_history(rng, w, ucfg, xs):
+    """-> (kind, before, after, use): what else the converter is told about tagged unions besides the checked call"""
+    r = rng.random()
+    if r < 0.4:
+        return "plain", [], [], []
+    members = ucfg["members"]
+    n = len(w["classes"])
+
+    def same_union():
+        ms = list(members)
+        if rng.random() < 0.5:
+            rng.shuffle(ms)  # Union[B, A] == Union[A, B]: the same registration key in another spelling
+        for _ in range(5):
+            h = gen_ucfg(rng, w, len(ms), "valid", members=ms)
+            if (h["tag_name"], h["tagmode"], h["tags"], h["default"]) != (ucfg["tag_name"], ucfg["tagmode"], ucfg["tags"], ucfg["default"]):
+                break
+        return h
+
+    def other_union():
+        for _ in range(10):
+            ms = rng.sample(range(n), rng.randint(2, n))
+            if set(ms) != set(members) and set(ms) & set(members):
+                return gen_ucfg(rng, w, len(ms), "valid", members=ms)
+        return None
+
+    before, after = [], []
+    if r < 0.75:
+        kind = "reconfigure"
+        before = [same_union() for _ in range(rng.choice([1, 1, 2]))]
+        if rng.random() < 0.3:
+            o = other_union()
+            if o is not None:
+                before.insert(rng.randint(0, len(before)), o)
+    else:
+        kind = "two-unions"
+        o = other_union()
+        if o is not None:
+            (before if rng.random() < 0.5 else after).append(o)
+        if rng.random() < 0.4:
+            o = other_union()
+            if o is not None:
+                after.append(o)
+        if not before and not after:
+            kind = "plain"
+    use = [x for ci in members for x in xs[ci][:1]][:3]
+    return kind, before, after, use
 
 
 def payload_mutations(rng, G, S, u_abs):
@@ -557,8 +718,9 @@ def run(chk: framework.Check):
             xs[ci] = [G.value(w, ("cls", ci), 2, any_stable=True) for _ in range(2)]
         for ucfg in ucfgs:
             for opts in opts_here:
+                hkind, before, after, use = gen_history(rng, w, ucfg, xs)
                 try:
-                    S = Scenario(drv, w, opts, ucfg)
+                    S = Scenario(drv, w, opts, ucfg, before=before, after=after, use=use)
                 except Exception:  # noqa: BLE001  a world python itself rejects
                     chk.note("world-rejected-by-python")
                     continue
@@ -578,7 +740,9 @@ def run(chk: framework.Check):
                     else:
                         chk.note("configure-skipped:" + why)
                     continue
-                chk.note("stream:" + stream)
+                chk.note("stream:" + stream, "history:" + hkind)
+                if S.history_errors:
+                    chk.note("history:a-configuration-raised")
                 got = []
                 for ci in range(len(w["classes"])):
                     for x_abs in xs[ci]:
@@ -602,6 +766,9 @@ def run(chk: framework.Check):
     chk.extra["rule"] = ("random worlds of attrs/dataclass classes x unions of 2-5 members x tag generators (class name, table, table with "
                          "fallback) x tag names x default (none/member/non-member) x converter options; member instances, genuine and "
                          "mutated payloads; distinct by configuration + canonical value")
+    chk.extra["histories"] = ("plain 40%; re-configuration 35% (the same union configured 1-2 times before with other tag names / "
+                             "generators / defaults / member order, used in between; oracles against the last configuration); "
+                             "two unions sharing members 25% (configured before and/or after the checked one)")
     chk.extra["streams"] = "valid 70%; collision (tag name = a member's field) and non-injective generators are separate streams"
     drv.close()
 
@@ -612,12 +779,16 @@ def replay(case):
     ucfg = dict(case["ucfg"])
     if ucfg.get("tags"):
         ucfg["tags"] = {int(k): terms.tuple_ify(v) for k, v in ucfg["tags"].items()}
-    S = Scenario(drv, w, case["opts"], ucfg)
+    S = Scenario(drv, w, case["opts"], ucfg, before=case.get("before"), after=case.get("after"), use=case.get("use"))
     chk = framework.Check("C13", "replay", 0)
     Rn = Runner(chk, drv)
     print("scenario:", Rn.label(S))
     for i, cl in enumerate(S.classes):
         print("  class", i, cl, [f["name"] for f in w["classes"][i]["fields"]], "tag", S.tags.get(i))
+    for h in S.before:
+        print("  configured and used BEFORE:", h)
+    for h in S.after:
+        print("  configured and used AFTER:", h)
     if S.configure_error is not None:
         print("configure_tagged_union raised", repr(S.configure_error))
         return 1
